@@ -42,8 +42,10 @@ ITV = ["ci", "pi"]
 OUTCOLS = LOC + SPR + ["ci_lo", "ci_hi", "pi_lo", "pi_hi"]
 SEGCOLS = ["chromosome", "start", "end", "gene", "log2", "probes", "weight"]
 SM_INPUT = ["op", "LU", "WU", "hasdepth", "bins", "segs", "icols", "loc", "spr", "itv", "an", "ad", "boots", "smoothed",
-            "skip_low"]
-BT_INPUT = ["op", "LU", "WU", "bins", "segs", "hassegs", "target_only", "an", "ad", "pick"]
+            "skip_low", "route", "sroute"]
+BT_INPUT = ["op", "LU", "WU", "bins", "segs", "hassegs", "target_only", "an", "ad", "pick", "route", "sroute"]
+# construction route of an input table (an input dimension): the SAME rows in the SAME order, different row-index labels
+ROUTES = ("fresh", "masked", "permuted", "offset")
 BH_INPUT = ["op", "ps"]
 MAXMAG = 2147.0
 OFFGRID = 1 << 30       # encodes "not on the grid" (can never equal an input value)
@@ -112,6 +114,62 @@ def _anti_name(k):
     return "Antitarget" if k % 2 else "Background"     # both ANTITARGET_ALIASES
 
 
+def _route_frame(df, route):
+    """the rows of df in the same order under another row index:
+      fresh     labels 0..n-1
+      masked    boolean-mask selection out of a larger table with decoy rows in between: gapped labels
+      permuted  rows entered in another order and brought back by position, no reset_index: permuted labels
+      offset    labels start at 1000
+    """
+    import numpy as np
+    import pandas as pd
+    n = len(df)
+    if route == "fresh" or n == 0:
+        out = df
+    elif route == "masked":
+        order, keep = [], []
+        for k in range(n):
+            if k % 2 == 0:                      # a decoy (copy of the row) in front of every other row, and the first
+                order.append(k)
+                keep.append(False)
+            order.append(k)
+            keep.append(True)
+        order.append(n - 1)
+        keep.append(False)
+        big = df.iloc[order].reset_index(drop=True)
+        out = big[np.array(keep)]
+    elif route == "permuted":
+        perm = list(range(n))[::-1] if n < 4 else [k for k in range(n) if k % 3 == 1] + \
+            [k for k in range(n) if k % 3 == 2] + [k for k in range(n) if k % 3 == 0]
+        shuffled = df.iloc[perm].reset_index(drop=True)      # rows entered in another order, labels 0..n-1
+        if n == 1:
+            shuffled.index = shuffled.index + 1000
+        inv = [0] * n
+        for pos, k in enumerate(perm):
+            inv[k] = pos
+        out = shuffled.iloc[inv]                             # intended order again, labels stay permuted
+    elif route == "offset":
+        out = df.copy()
+        out.index = pd.RangeIndex(1000, 1000 + n)
+    else:
+        raise MachineryError(f"unknown construction route {route}")
+    if len(out) != n or not out.reset_index(drop=True).equals(df.reset_index(drop=True)):
+        raise MachineryError(f"table construction route {route} did not reproduce the rows")
+    return out
+
+
+def assign_routes(inputs, start=0):
+    """construction route of the bin table and of the segment table, independently, rotating per record (all 16 pairs)"""
+    forced = os.environ.get("VERIF_C17_ROUTES")            # developer aid (mutant demonstrations); never set by the registered command
+    for k, inp in enumerate(inputs):
+        if inp["op"] == "bh":
+            continue
+        j = start + k
+        inp["route"] = forced or ROUTES[j % 4]
+        inp["sroute"] = forced or ROUTES[(j // 4 + j) % 4]
+    return inputs
+
+
 def _bins_array(inp, with_depth):
     import pandas as pd
     from cnvlib.cnary import CopyNumArray as CNA
@@ -128,7 +186,7 @@ def _bins_array(inp, with_depth):
         data["depth"] = pd.Series([0.0 if b[6] else 10.0 for b in rows], dtype="float64")
     data["weight"] = pd.Series([b[4] / WU for b in rows], dtype="float64")
     data["bid"] = pd.Series(list(range(1, len(rows) + 1)), dtype="int64")
-    return CNA(pd.DataFrame(data))
+    return CNA(_route_frame(pd.DataFrame(data), inp.get("route", "fresh")))
 
 
 def _segs_array(inp):
@@ -145,7 +203,7 @@ def _segs_array(inp):
         "probes": pd.Series([s[4] for s in rows], dtype="int64"),
         "weight": pd.Series([s[5] / WU for s in rows], dtype="float64"),
     }
-    return CNA(pd.DataFrame(data))
+    return CNA(_route_frame(pd.DataFrame(data), inp.get("sroute", "fresh")))
 
 
 def _proj_segs(arr, inp):
@@ -173,7 +231,7 @@ def _perturb_rng(k):
 
 def _exec_segmetrics(inp):
     from cnvlib import segmetrics
-    rec = {k: inp[k] for k in SM_INPUT}
+    rec = {k: inp.get(k, "fresh") if k in ("route", "sroute") else inp[k] for k in SM_INPUT}
     blank = {c: [] for c in OUTCOLS + ["ci2_lo", "ci2_hi"]}
     rec.update(err="", err2="", cols=[], osegs=[], asegs=[], out=blank, cib=[], cib2=[])
     alpha = inp["an"] / inp["ad"]
@@ -210,7 +268,7 @@ def _exec_segmetrics(inp):
 def _exec_bintest(inp):
     import numpy as np
     from cnvlib import bintest
-    rec = {k: inp[k] for k in BT_INPUT}
+    rec = {k: inp.get(k, "fresh") if k in ("route", "sroute") else inp[k] for k in BT_INPUT}
     rec.update(err="", t_ids=[], t_res2=[], p_raw=[], q_log=[], q1=[], prank=[], qlogrank=[], q1rank=[], q2rank=[],
                alpha=_obs(inp["an"] / inp["ad"]), alpha_rank=0, hits=[])
     logged = []
@@ -305,7 +363,7 @@ def _inputs_from_states(states):
             continue
         inp = tlaval.to_py(st["inp"])
         fields = {"segmetrics": SM_INPUT, "bintest": BT_INPUT, "bh": BH_INPUT}[inp["op"]]
-        d = {k: inp[k] for k in fields}
+        d = {k: inp[k] for k in fields if k not in ("route", "sroute")}
         for k in ("bins", "segs", "ps", "loc", "spr", "itv", "icols"):
             if k in d:
                 d[k] = [list(x) if isinstance(x, (tuple, list)) else x for x in d[k]]
@@ -559,6 +617,11 @@ def structured_inputs():
 # ------------------------------------------------------------------ bookkeeping
 def _count(ctx, rec):
     op = rec["op"]
+    if op != "bh":
+        ctx.bump(f"bins_route_{rec['route']}")
+        ctx.bump(f"segs_route_{rec['sroute']}")
+        if rec["route"] != "fresh" and rec["sroute"] != "fresh" and rec["bins"] and rec["segs"]:
+            ctx.bump("both_tables_non_fresh_and_non_empty")
     if op == "segmetrics":
         used = [b for b in rec["bins"] if not (rec["skip_low"] and (b[3] < -15 * rec["LU"] or (rec["hasdepth"] and b[6])))]
         for s in rec["segs"]:
@@ -632,7 +695,10 @@ def run(ctx: Ctx):
                 "the low-coverage cut, weights in (0,1] incl. 1) with segmentations cut at bin edges, inside bins and in "
                 "gaps (0-bin, 1-bin, up to 301-bin segments, chromosomes on one side only), random subsets of the 12 "
                 "statistics, 10 alphas, bootstraps 1..100, smoothed, skip_low; bintest with rational alpha and with alpha "
-                "= a logged adjusted p; p_adjust_bh on rational vectors of length 1..200.  A case is distinct by all "
+                "= a logged adjusted p; p_adjust_bh on rational vectors of length 1..200.  In both directions the bin table "
+                "and the segment table handed to the code are built, rotating per record and independently, by one of "
+                "four routes with the same rows in the same order and different row-index labels (fresh 0..n-1, masked "
+                "out of a larger table: gapped, permuted and restored by position, offset from 1000).  A case is distinct by all "
                 "input fields; non-trivial when it has at least one bin / p-value.")
     only = set(filter(None, os.environ.get("VERIF_C17_OPS", "").split(",")))   # developer aid; never set by the registered command
     if only:
@@ -670,7 +736,7 @@ def run(ctx: Ctx):
         invs = ["DesignOK"] + (["DesignSelection"] if fam == "sel" else []) + (["DesignBHIsLibraryBH"] if fam == "bh" else [])
         cfg = ctx.cfg(f"mc-{k}-{fam}", spec="Spec", invariants=invs, constants=_mc_constants(fam, **kw))
         r, states = ctx.mc(MC, cfg, timeout=5400, tag=f"{MC}-{k}", coverage=False)
-        inputs = _inputs_from_states(states)
+        inputs = assign_routes(_inputs_from_states(states), start=k)
         del states
         if len(inputs) * 2 != r.distinct:
             raise MachineryError(f"dump replay ({fam}): {len(inputs)} ret states parsed, TLC reports {r.distinct} states")
@@ -699,7 +765,7 @@ def run(ctx: Ctx):
         inputs += [gen_bintest(rng, big=True) for _ in range(6 * f)]
     if wanted("bh"):
         inputs += [gen_bh(rng) for _ in range(200 * f)]
-    rnd = ctx.execute(execute, inputs)
+    rnd = ctx.execute(execute, assign_routes(inputs, start=1))
     recs += rnd
     for rec in recs:
         ctx.count_input(_key(rec), nontrivial=bool(rec.get("bins") or rec.get("ps")))
@@ -710,6 +776,8 @@ def run(ctx: Ctx):
             "segment_with_0_bins", "segment_with_1_bin", "bin_straddling_a_segment_edge", "alpha_equals_a_logged_adjusted_p",
             "tied_p_values", "p_equal_0", "p_equal_1", "bh_p_equal_0", "bh_p_equal_1", "bh_tied_p_values", "skip_low",
             "log2_exactly_at_low_cut", "ci_smoothed", "target_only", "weight_exactly_1", "some_but_not_all_bins_returned"]
+        if not os.environ.get("VERIF_C17_ROUTES"):
+            need += [f"{t}_route_{r}" for t in ("bins", "segs") for r in ROUTES] + ["both_tables_non_fresh_and_non_empty"]
         missing = [x for x in need if not ctx.boundary.get(x)]
         if missing:
             raise MachineryError(f"vacuity guard: boundary inputs never generated: {missing}")
